@@ -36,8 +36,15 @@ package grammar
 // exceeds the budget. Everything else in the engine is abstracted: the heap
 // keys a helper may write are inferred from its code.
 
+// failAt records the furthest failure; it never moves the read position
+//@ func parser.failAt(p, fail, pos, want) ()
+//@   requires p != nil
+//@   ensures[C15] position_kept: p.pt.position.offset == old(p.pt.position.offset)
+//@   may_panic
+
 //@ func parser.parseExpr(p, expr) (val, ok)
 //@   requires p != nil && p.Stats != nil && p.Stats.ExprCnt <= p.maxExprCnt && p.errs != nil
+//@   ensures[C15] backtrack: !ok ==> p.pt.position.offset == old(p.pt.position.offset)
 //@   ensures[C10] yields: ok ==> yields(expr, val)
 //@   ensures[C10] fail_nil: !ok ==> val == nil
 //@   assume p.Stats.ExprCnt < 18446744073709551615
@@ -48,6 +55,7 @@ package grammar
 
 //@ func parser.parseRule(p, rule) (val, ok)
 //@   requires p != nil && p.Stats != nil && p.Stats.ExprCnt <= p.maxExprCnt && p.errs != nil
+//@   ensures[C15] backtrack: !ok ==> p.pt.position.offset == old(p.pt.position.offset)
 //@   ensures[C10] yields: ok ==> yields(rule.expr, val)
 //@   ensures[C10] fail_nil: !ok ==> val == nil
 //@   ensures[C11] budget: p.Stats == old(p.Stats) && p.maxExprCnt == old(p.maxExprCnt) && p.Stats.ExprCnt >= old(p.Stats.ExprCnt) && p.Stats.ExprCnt <= p.maxExprCnt && p.errs == old(p.errs)
@@ -55,24 +63,28 @@ package grammar
 
 //@ func parser.parseActionExpr(p, act) (val, ok)
 //@   requires p != nil && p.Stats != nil && p.Stats.ExprCnt <= p.maxExprCnt && p.errs != nil
+//@   ensures[C15] backtrack: !ok ==> p.pt.position.offset == old(p.pt.position.offset)
 //@   ensures[C10] fail_nil: !ok ==> val == nil
 //@   ensures[C11] budget: p.Stats == old(p.Stats) && p.maxExprCnt == old(p.maxExprCnt) && p.Stats.ExprCnt >= old(p.Stats.ExprCnt) && p.Stats.ExprCnt <= p.maxExprCnt && p.errs == old(p.errs)
 //@   may_panic
 
 //@ func parser.parseAndCodeExpr(p, and) (val, ok)
 //@   requires p != nil && p.Stats != nil && p.Stats.ExprCnt <= p.maxExprCnt && p.errs != nil
+//@   ensures[C15] backtrack: !ok ==> p.pt.position.offset == old(p.pt.position.offset)
 //@   ensures[C10] shape: val == nil
 //@   ensures[C11] budget: p.Stats == old(p.Stats) && p.maxExprCnt == old(p.maxExprCnt) && p.Stats.ExprCnt >= old(p.Stats.ExprCnt) && p.Stats.ExprCnt <= p.maxExprCnt && p.errs == old(p.errs)
 //@   may_panic
 
 //@ func parser.parseAndExpr(p, and) (val, ok)
 //@   requires p != nil && p.Stats != nil && p.Stats.ExprCnt <= p.maxExprCnt && p.errs != nil
+//@   ensures[C15] lookahead: p.pt.position.offset == old(p.pt.position.offset)
 //@   ensures[C10] shape: val == nil
 //@   ensures[C11] budget: p.Stats == old(p.Stats) && p.maxExprCnt == old(p.maxExprCnt) && p.Stats.ExprCnt >= old(p.Stats.ExprCnt) && p.Stats.ExprCnt <= p.maxExprCnt && p.errs == old(p.errs)
 //@   may_panic
 
 //@ func parser.parseAnyMatcher(p, any) (val, ok)
 //@   requires p != nil && p.Stats != nil && p.Stats.ExprCnt <= p.maxExprCnt && p.errs != nil
+//@   ensures[C15] backtrack: !ok ==> p.pt.position.offset == old(p.pt.position.offset)
 //@   ensures[C10] fail_nil: !ok ==> val == nil
 //@   ensures[C10] shape: ok ==> is[[]byte](val)
 //@   ensures[C11] budget: p.Stats == old(p.Stats) && p.maxExprCnt == old(p.maxExprCnt) && p.Stats.ExprCnt >= old(p.Stats.ExprCnt) && p.Stats.ExprCnt <= p.maxExprCnt && p.errs == old(p.errs)
@@ -80,6 +92,7 @@ package grammar
 
 //@ func parser.parseCharClassMatcher(p, chr) (val, ok)
 //@   requires p != nil && p.Stats != nil && p.Stats.ExprCnt <= p.maxExprCnt && p.errs != nil
+//@   ensures[C15] backtrack: !ok ==> p.pt.position.offset == old(p.pt.position.offset)
 //@   ensures[C10] fail_nil: !ok ==> val == nil
 //@   ensures[C10] shape: ok ==> is[[]byte](val)
 //@   ensures[C11] budget: p.Stats == old(p.Stats) && p.maxExprCnt == old(p.maxExprCnt) && p.Stats.ExprCnt >= old(p.Stats.ExprCnt) && p.Stats.ExprCnt <= p.maxExprCnt && p.errs == old(p.errs)
@@ -93,15 +106,18 @@ package grammar
 
 //@ func parser.parseChoiceExpr(p, ch) (val, ok)
 //@   requires p != nil && p.Stats != nil && p.Stats.ExprCnt <= p.maxExprCnt && p.errs != nil
+//@   ensures[C15] backtrack: !ok ==> p.pt.position.offset == old(p.pt.position.offset)
 //@   ensures[C10] yields: ok ==> yields(box[*choiceExpr](ch), val)
 //@   ensures[C10] fail_nil: !ok ==> val == nil
 //@   ensures[C11] budget: p.Stats == old(p.Stats) && p.maxExprCnt == old(p.maxExprCnt) && p.Stats.ExprCnt >= old(p.Stats.ExprCnt) && p.Stats.ExprCnt <= p.maxExprCnt && p.errs == old(p.errs)
 //@   may_panic
 //@   loop 1:
+//@     invariant[C15] p.pt.position.offset == old(p.pt.position.offset)
 //@     invariant p.Stats == old(p.Stats) && p.maxExprCnt == old(p.maxExprCnt) && p.Stats.ExprCnt >= old(p.Stats.ExprCnt) && p.Stats.ExprCnt <= p.maxExprCnt && p.errs == old(p.errs) && p.Stats != nil
 
 //@ func parser.parseLabeledExpr(p, lab) (val, ok)
 //@   requires p != nil && p.Stats != nil && p.Stats.ExprCnt <= p.maxExprCnt && p.errs != nil
+//@   ensures[C15] backtrack: !ok ==> p.pt.position.offset == old(p.pt.position.offset)
 //@   ensures[C10] yields: ok ==> yields(box[*labeledExpr](lab), val)
 //@   ensures[C10] fail_nil: !ok ==> val == nil
 //@   ensures[C11] budget: p.Stats == old(p.Stats) && p.maxExprCnt == old(p.maxExprCnt) && p.Stats.ExprCnt >= old(p.Stats.ExprCnt) && p.Stats.ExprCnt <= p.maxExprCnt && p.errs == old(p.errs)
@@ -109,6 +125,7 @@ package grammar
 
 //@ func parser.parseLitMatcher(p, lit) (val, ok)
 //@   requires p != nil && p.Stats != nil && p.Stats.ExprCnt <= p.maxExprCnt && p.errs != nil
+//@   ensures[C15] backtrack: !ok ==> p.pt.position.offset == old(p.pt.position.offset)
 //@   ensures[C10] fail_nil: !ok ==> val == nil
 //@   ensures[C10] shape: ok ==> is[[]byte](val)
 //@   ensures[C11] budget: p.Stats == old(p.Stats) && p.maxExprCnt == old(p.maxExprCnt) && p.Stats.ExprCnt >= old(p.Stats.ExprCnt) && p.Stats.ExprCnt <= p.maxExprCnt && p.errs == old(p.errs)
@@ -118,35 +135,41 @@ package grammar
 
 //@ func parser.parseNotCodeExpr(p, not) (val, ok)
 //@   requires p != nil && p.Stats != nil && p.Stats.ExprCnt <= p.maxExprCnt && p.errs != nil
+//@   ensures[C15] backtrack: !ok ==> p.pt.position.offset == old(p.pt.position.offset)
 //@   ensures[C10] shape: val == nil
 //@   ensures[C11] budget: p.Stats == old(p.Stats) && p.maxExprCnt == old(p.maxExprCnt) && p.Stats.ExprCnt >= old(p.Stats.ExprCnt) && p.Stats.ExprCnt <= p.maxExprCnt && p.errs == old(p.errs)
 //@   may_panic
 
 //@ func parser.parseNotExpr(p, not) (val, ok)
 //@   requires p != nil && p.Stats != nil && p.Stats.ExprCnt <= p.maxExprCnt && p.errs != nil
+//@   ensures[C15] lookahead: p.pt.position.offset == old(p.pt.position.offset)
 //@   ensures[C10] shape: val == nil
 //@   ensures[C11] budget: p.Stats == old(p.Stats) && p.maxExprCnt == old(p.maxExprCnt) && p.Stats.ExprCnt >= old(p.Stats.ExprCnt) && p.Stats.ExprCnt <= p.maxExprCnt && p.errs == old(p.errs)
 //@   may_panic
 
 //@ func parser.parseOneOrMoreExpr(p, expr) (val, ok)
 //@   requires p != nil && p.Stats != nil && p.Stats.ExprCnt <= p.maxExprCnt && p.errs != nil
+//@   ensures[C15] backtrack: !ok ==> p.pt.position.offset == old(p.pt.position.offset)
 //@   ensures[C10] yields: ok ==> yields(box[*oneOrMoreExpr](expr), val)
 //@   ensures[C10] fail_nil: !ok ==> val == nil
 //@   ensures[C10] shape: ok ==> is[[]any](val) && len(unbox[[]any](val)) >= 1
 //@   ensures[C11] budget: p.Stats == old(p.Stats) && p.maxExprCnt == old(p.maxExprCnt) && p.Stats.ExprCnt >= old(p.Stats.ExprCnt) && p.Stats.ExprCnt <= p.maxExprCnt && p.errs == old(p.errs)
 //@   may_panic
 //@   loop 1:
+//@     invariant[C15] len(vals) == 0 ==> p.pt.position.offset == old(p.pt.position.offset)
 //@     invariant[C10] forall j Int :: 0 <= j && j < len(vals) ==> yields(expr.expr, vals[j])
 //@     invariant p.Stats == old(p.Stats) && p.maxExprCnt == old(p.maxExprCnt) && p.Stats.ExprCnt >= old(p.Stats.ExprCnt) && p.Stats.ExprCnt <= p.maxExprCnt && p.errs == old(p.errs) && p.Stats != nil
 
 //@ func parser.parseRecoveryExpr(p, recover) (val, ok)
 //@   requires p != nil && p.Stats != nil && p.Stats.ExprCnt <= p.maxExprCnt && p.errs != nil
+//@   ensures[C15] backtrack: !ok ==> p.pt.position.offset == old(p.pt.position.offset)
 //@   ensures[C10] fail_nil: !ok ==> val == nil
 //@   ensures[C11] budget: p.Stats == old(p.Stats) && p.maxExprCnt == old(p.maxExprCnt) && p.Stats.ExprCnt >= old(p.Stats.ExprCnt) && p.Stats.ExprCnt <= p.maxExprCnt && p.errs == old(p.errs)
 //@   may_panic
 
 //@ func parser.parseRuleRefExpr(p, ref) (val, ok)
 //@   requires p != nil && p.Stats != nil && p.Stats.ExprCnt <= p.maxExprCnt && p.errs != nil
+//@   ensures[C15] backtrack: !ok ==> p.pt.position.offset == old(p.pt.position.offset)
 //@   ensures[C10] yields: ok ==> yields(box[*ruleRefExpr](ref), val)
 //@   ensures[C10] fail_nil: !ok ==> val == nil
 //@   ensures[C11] budget: p.Stats == old(p.Stats) && p.maxExprCnt == old(p.maxExprCnt) && p.Stats.ExprCnt >= old(p.Stats.ExprCnt) && p.Stats.ExprCnt <= p.maxExprCnt && p.errs == old(p.errs)
@@ -154,6 +177,7 @@ package grammar
 
 //@ func parser.parseSeqExpr(p, seq) (val, ok)
 //@   requires p != nil && p.Stats != nil && p.Stats.ExprCnt <= p.maxExprCnt && p.errs != nil
+//@   ensures[C15] backtrack: !ok ==> p.pt.position.offset == old(p.pt.position.offset)
 //@   ensures[C10] yields: ok ==> yields(box[*seqExpr](seq), val)
 //@   ensures[C10] fail_nil: !ok ==> val == nil
 //@   ensures[C10] shape: ok ==> is[[]any](val) && len(unbox[[]any](val)) == len(seq.exprs)
@@ -166,14 +190,17 @@ package grammar
 
 //@ func parser.parseThrowExpr(p, expr) (val, ok)
 //@   requires p != nil && p.Stats != nil && p.Stats.ExprCnt <= p.maxExprCnt && p.errs != nil
+//@   ensures[C15] backtrack: !ok ==> p.pt.position.offset == old(p.pt.position.offset)
 //@   ensures[C10] fail_nil: !ok ==> val == nil
 //@   ensures[C11] budget: p.Stats == old(p.Stats) && p.maxExprCnt == old(p.maxExprCnt) && p.Stats.ExprCnt >= old(p.Stats.ExprCnt) && p.Stats.ExprCnt <= p.maxExprCnt && p.errs == old(p.errs)
 //@   may_panic
 //@   loop 1:
+//@     invariant[C15] p.pt.position.offset == old(p.pt.position.offset)
 //@     invariant p.Stats == old(p.Stats) && p.maxExprCnt == old(p.maxExprCnt) && p.Stats.ExprCnt >= old(p.Stats.ExprCnt) && p.Stats.ExprCnt <= p.maxExprCnt && p.errs == old(p.errs) && p.Stats != nil
 
 //@ func parser.parseZeroOrMoreExpr(p, expr) (val, ok)
 //@   requires p != nil && p.Stats != nil && p.Stats.ExprCnt <= p.maxExprCnt && p.errs != nil
+//@   ensures[C15] backtrack: !ok ==> p.pt.position.offset == old(p.pt.position.offset)
 //@   ensures[C10] yields: ok ==> yields(box[*zeroOrMoreExpr](expr), val)
 //@   ensures[C10] shape: ok && is[[]any](val)
 //@   ensures[C11] budget: p.Stats == old(p.Stats) && p.maxExprCnt == old(p.maxExprCnt) && p.Stats.ExprCnt >= old(p.Stats.ExprCnt) && p.Stats.ExprCnt <= p.maxExprCnt && p.errs == old(p.errs)
@@ -184,6 +211,7 @@ package grammar
 
 //@ func parser.parseZeroOrOneExpr(p, expr) (val, ok)
 //@   requires p != nil && p.Stats != nil && p.Stats.ExprCnt <= p.maxExprCnt && p.errs != nil
+//@   ensures[C15] backtrack: !ok ==> p.pt.position.offset == old(p.pt.position.offset)
 //@   ensures[C10] yields: ok ==> yields(box[*zeroOrOneExpr](expr), val)
 //@   ensures[C10] shape: ok
 //@   ensures[C11] budget: p.Stats == old(p.Stats) && p.maxExprCnt == old(p.maxExprCnt) && p.Stats.ExprCnt >= old(p.Stats.ExprCnt) && p.Stats.ExprCnt <= p.maxExprCnt && p.errs == old(p.errs)
